@@ -6,7 +6,6 @@
 -/
 import Rbgp.Rib.EntryInsert
 import Rbgp.Rib.InvPurge
-import Rbgp.Rib.EntryMisc
 namespace Rbgp.Rib
 
 /-- number of destinations with at least one path satisfying `q` -/
@@ -29,11 +28,11 @@ def OtherSess (t t' : Table) (src : Src) (fam : Fam) (net : Net) : Prop :=
     (f = fam → ∀ x ∈ t.entries fam net, x.src.id = i → x.src.addr ≠ src.addr) →
     sessCount i (t'.rib f) = sessCount i (t.rib f))
 
-/-- a purge of the paths of `a` in family `f` that was handed the counter of source `ctr` -/
-def PurgeSpec (t t' : Table) (a : Nat) (f : Fam) (ctr : Option Nat) : Prop :=
+/-- a purge of the paths of `a` in family `f` selected by `pred` that was handed the counter of source `ctr` -/
+def PurgeSpec (t t' : Table) (a : Nat) (f : Fam) (ctr : Option Nat) (pred : Entry → Bool) : Prop :=
   ∃ gone, t'.ctrs = purgeCtrs t f gone ctr ∧
     (∀ i f', sessCount i (t'.rib f') ≤ sessCount i (t.rib f')) ∧
-    (∀ i f', (f' = f → ∀ nd ∈ (t.rib f).dests, ∀ e ∈ nd.2.entries, e.src.id = i → e.src.addr ≠ a) →
+    (∀ i f', (f' = f → ∀ nd ∈ (t.rib f).dests, ∀ e ∈ nd.2.entries, e.src.id = i → pred e = false) →
       sessCount i (t'.rib f') = sessCount i (t.rib f')) ∧
     (∀ i, (∀ nd ∈ (t.rib f).dests, ∀ e ∈ nd.2.entries, (e.src.id = i ↔ e.src.addr = a)) →
       sessCount i (t'.rib f) + gone = sessCount i (t.rib f))
@@ -55,10 +54,10 @@ def CtrSpec (t t' : Table) (r : Res) : Op → Prop
         t'.ctrs = (if d && src.lim.isSome then
             aset (src.id, fam) (atomicDec (t.ctr (src.id, fam))) t.ctrs else t.ctrs) ∧
         OtherSess t t' src fam net
-  | .drop a f => PurgeSpec t t' a f none
-  | .dropStale a f ctr => PurgeSpec t t' a f ctr
-  | .dropLlgr a f ctr => PurgeSpec t t' a f ctr
-  | .dropNoLlgr a f ctr => PurgeSpec t t' a f ctr
+  | .drop a f => PurgeSpec t t' a f none (sameAddr a)
+  | .dropStale a f ctr => PurgeSpec t t' a f ctr (fun e => sameAddr a e && e.isStale t.flags)
+  | .dropLlgr a f ctr => PurgeSpec t t' a f ctr (fun e => sameAddr a e && t.flags.llgr.contains e.src.id)
+  | .dropNoLlgr a f ctr => PurgeSpec t t' a f ctr (fun e => sameAddr a e && e.attr.hasNoLlgr)
   | _ => (∀ i f, sessCount i (t'.rib f) = sessCount i (t.rib f)) ∧ t'.ctrs = t.ctrs
 
 structure CtrFacts (t : Table) (op : Op) (t' : Table) (r : Res) : Prop where
@@ -516,7 +515,7 @@ theorem ctrFacts_purge (p : Profile) (hinv : Inv c g t) (hinv' : Inv c g t') {ad
     (hdrop : dropStats = true → pred = sameAddr addr) {r : Res}
     (hstep : t.purge p addr fam pred ctr dropStats = .ok (t', r)) :
     (∀ a f, recvCount a (t'.rib f) ≤ recvCount a (t.rib f) + 1) ∧
-    (∀ a f, accCount a (t'.rib f) ≤ accCount a (t.rib f) + 1) ∧ PurgeSpec t t' addr fam ctr := by
+    (∀ a f, accCount a (t'.rib f) ≤ accCount a (t.rib f) + 1) ∧ PurgeSpec t t' addr fam ctr pred := by
   obtain ⟨stats', hrun, hst, _, _⟩ := purge_stats (fam := fam) p ctr dropStats hp hdrop hinv
   rw [hrun] at hstep
   cases hstep
@@ -563,13 +562,7 @@ theorem ctrFacts_purge (p : Profile) (hinv : Inv c g t) (hinv' : Inv c g t') {ad
       intro e he
       cases hq : (e.src.id == i)
       · simp
-      · have hai := hno rfl nd hnd e he (by simpa using hq)
-        have : pred e = false := by
-          cases hpe : pred e
-          · rfl
-          · have := hp e hpe
-            simp only [sameAddr, beq_iff_eq] at this
-            exact absurd this hai
+      · have : pred e = false := hno rfl nd hnd e he (by simpa using hq)
         simp [this]
     · rw [hsh.ribOther f' hf]
   · intro i hag
@@ -608,18 +601,80 @@ theorem ctrFacts_mapped (hinv : Inv c g t) (hinv' : Inv c g t') (hs : t'.stats =
   rw [cntBy_eq, cntBy_eq, hd f]
   exact cntL_map_congr fun nd hnd => hF f nd hnd i
 
-theorem nhvUpd_src (nh : Nat) (reachable : Bool) (e : Entry) : (nhvUpd nh reachable e).src = e.src := by
-  unfold nhvUpd; split <;> rfl
+/-! ### `restale`, `update_nexthop_validity`, deferral: the paths of every destination stay (up to order
+    and the next-hop validity bit) -/
+
+theorem restaleDest_any (fam : Fam) (addr : Nat) (m : Bool) (fl : Flags) (nd : Net × Dest) (q : Entry → Bool) :
+    (restaleDest fam addr m fl nd).2.1.2.entries.any q = nd.2.entries.any q := by
+  obtain ⟨net, dst⟩ := nd
+  unfold restaleDest
+  simp only []
+  split
+  · rfl
+  · exact (sortBy_perm _ _).any_eq
+
+theorem restaleLoop_cnt (fam : Fam) (addr : Nat) (m : Bool) (q : Entry → Bool) :
+    ∀ (l : List (Net × Dest)) (fl : Flags), cntL q (restaleLoop fam addr m l fl).2.1 = cntL q l := by
+  intro l
+  induction l with
+  | nil => intro fl; rfl
+  | cons nd l ih =>
+    intro fl
+    have h1 := restaleDest_any fam addr m fl nd q
+    have h2 := ih (restaleDest fam addr m fl nd).1
+    show cntL q ((restaleDest fam addr m fl nd).2.1 ::
+      (restaleLoop fam addr m l (restaleDest fam addr m fl nd).1).2.1) = _
+    rw [cntL_cons, cntL_cons, h1, h2]
+
+theorem restaleGen_dests' (addr : Nat) (fam : Fam) (m : Bool) (f : Fam) :
+    ((t.restaleGen addr fam m).1.rib f).dests =
+      if f = fam then (restaleLoop fam addr m (t.rib fam).dests t.flags).2.1 else (t.rib f).dests := by
+  cases fam <;> cases f <;> rfl
+
+theorem nhvDest_any (fam : Fam) (nh : Nat) (reachable : Bool) (nd : Net × Dest) (i : Nat) :
+    ((nhvDest fam nh reachable nd).1.2.entries.any fun e => e.src.id == i) =
+      nd.2.entries.any fun e => e.src.id == i := by
+  obtain ⟨net, dst⟩ := nd
+  unfold nhvDest
+  simp only []
+  split
+  · rfl
+  · simp only [List.any_map]
+    apply any_congr_of_mem
+    intro e _
+    simp only [Function.comp]
+    split <;> rfl
+
+theorem nhValidity_dests (nh : Nat) (reachable : Bool) (f : Fam) :
+    ((t.nhValidity nh reachable).1.rib f).dests = (t.rib f).dests.map fun nd => (nhvDest f nh reachable nd).1 := by
+  cases f <;> simp [Table.nhValidity, Table.rib, Rib.nhv, List.map_map, Function.comp_def]
+
+theorem setDeferring_dests' (fam : Fam) (b : Bool) (f : Fam) :
+    ((t.setRib fam { t.rib fam with deferring := b }).rib f).dests = (t.rib f).dests := by
+  cases fam <;> cases f <;> rfl
 
 theorem ctrFacts_step (p : Profile) (hinv : Inv c g t) (hinv' : Inv c g t') (op : Op) {r : Res}
     (hstep : t.step p op = .ok (t', r)) : CtrFacts t op t' r := by
-  have hid : (∀ f, (t'.rib f).dests = (t.rib f).dests) → t'.stats = t.stats → t'.ctrs = t.ctrs →
+  have hgen : t'.stats = t.stats → t'.ctrs = t.ctrs →
+      (∀ i f, cntL (fun e => e.src.id == i) (t'.rib f).dests = cntL (fun e => e.src.id == i) (t.rib f).dests) →
       (∀ a f, recvCount a (t'.rib f) ≤ recvCount a (t.rib f) + 1) ∧
       (∀ a f, accCount a (t'.rib f) ≤ accCount a (t.rib f) + 1) ∧
       (∀ i f, sessCount i (t'.rib f) = sessCount i (t.rib f)) ∧ t'.ctrs = t.ctrs := by
-    intro hd hs hc
-    exact ctrFacts_mapped hinv hinv' hs hc (F := fun _ nd => nd) (fun f => by rw [hd f, List.map_id'])
-      (fun _ _ _ _ => rfl)
+    intro hs hc hd
+    obtain ⟨h1, h2⟩ := le_of_stats_eq hinv hinv' hs
+    exact ⟨h1, h2, fun i f => hd i f, hc⟩
+  have hrestale : ∀ addr fam m, t' = (t.restaleGen addr fam m).1 →
+      (∀ a f, recvCount a (t'.rib f) ≤ recvCount a (t.rib f) + 1) ∧
+      (∀ a f, accCount a (t'.rib f) ≤ accCount a (t.rib f) + 1) ∧
+      (∀ i f, sessCount i (t'.rib f) = sessCount i (t.rib f)) ∧ t'.ctrs = t.ctrs := by
+    intro addr fam m e
+    subst e
+    refine hgen (by simp [Table.restaleGen]) (by simp [Table.restaleGen]) ?_
+    intro i f
+    rw [restaleGen_dests']
+    by_cases hf : f = fam
+    · subst hf; rw [if_pos rfl]; exact restaleLoop_cnt f addr m _ _ _
+    · rw [if_neg hf]
   cases op with
   | insert src fam net rpid nh attr filtered nhInv =>
     exact ctrFacts_insert p hinv hinv' src fam net rpid nh attr filtered nhInv hstep
@@ -640,58 +695,30 @@ theorem ctrFacts_step (p : Profile) (hinv : Inv c g t) (hinv' : Inv c g t') (op 
       (fun h => by simp at h) hstep
     exact ⟨h1, h2, h3⟩
   | restale addr fam =>
-    cases hstep
-    obtain ⟨FL, hd⟩ := restaleGen_dests addr fam false hinv
-    have hs : (t.restaleGen addr fam false).1.stats = t.stats := by simp [Table.restaleGen]
-    have hc : (t.restaleGen addr fam false).1.ctrs = t.ctrs := by simp [Table.restaleGen]
-    obtain ⟨h1, h2, h3, h4⟩ := ctrFacts_mapped hinv hinv' hs hc hd (by
-      intro f nd _ i
-      by_cases hf : f = fam
-      · simp only [if_pos hf]
-        cases ht : nd.2.entries.any (sameAddr addr) with
-        | false => rw [rd_untouched fam addr FL nd ht]
-        | true => rw [rd_entries_touched fam addr FL nd ht, (sortBy_perm _ _).any_eq]
-      · simp only [if_neg hf])
+    obtain ⟨h1, h2, h3, h4⟩ := hrestale addr fam false (by cases hstep; rfl)
     exact ⟨h1, h2, h3, h4⟩
   | restaleLlgr addr fam =>
-    cases hstep
-    obtain ⟨FL, hd⟩ := restaleGen_dests addr fam true hinv
-    have hs : (t.restaleGen addr fam true).1.stats = t.stats := by simp [Table.restaleGen]
-    have hc : (t.restaleGen addr fam true).1.ctrs = t.ctrs := by simp [Table.restaleGen]
-    obtain ⟨h1, h2, h3, h4⟩ := ctrFacts_mapped hinv hinv' hs hc hd (by
-      intro f nd _ i
-      by_cases hf : f = fam
-      · simp only [if_pos hf]
-        cases ht : nd.2.entries.any (sameAddr addr) with
-        | false => rw [rd_untouched fam addr FL nd ht]
-        | true => rw [rd_entries_touched fam addr FL nd ht, (sortBy_perm _ _).any_eq]
-      · simp only [if_neg hf])
+    obtain ⟨h1, h2, h3, h4⟩ := hrestale addr fam true (by cases hstep; rfl)
     exact ⟨h1, h2, h3, h4⟩
   | nhValidity nh reachable =>
-    cases hstep
-    obtain ⟨h1, h2, h3, h4⟩ := ctrFacts_mapped hinv hinv'
-      (show (t.nhValidity nh reachable).1.stats = t.stats from rfl)
-      (show (t.nhValidity nh reachable).1.ctrs = t.ctrs from rfl)
-      (F := fun f nd => (nhvDest f nh reachable nd).1)
-      (fun f => by show ((t.nhValidity nh reachable).1.rib f).dests = _; rw [nhValidity_rib, nhv_dests])
-      (by
-        intro f nd _ i
-        cases ht : (nd.2.entries.any fun e => e.nh == some nh && e.nhInv != !reachable) with
-        | false => rw [nhvDest_untouched f nh reachable nd ht]
-        | true =>
-          rw [nhvDest_touched f nh reachable nd ht]
-          simp only [List.any_map]
-          exact any_congr_of_mem fun e _ => by simp only [Function.comp, nhvUpd_src])
+    have e : t' = (t.nhValidity nh reachable).1 := by cases hstep; rfl
+    subst e
+    obtain ⟨h1, h2, h3, h4⟩ := hgen rfl rfl (by
+      intro i f
+      rw [nhValidity_dests]
+      exact cntL_map_congr fun nd _ => nhvDest_any f nh reachable nd i)
     exact ⟨h1, h2, h3, h4⟩
   | startDeferral fam =>
-    cases hstep
-    obtain ⟨h1, h2, h3, h4⟩ := hid (fun f => setDeferring_dests t fam true f)
-      (by simp [Table.startDeferral]) (by simp [Table.startDeferral])
+    have e : t' = t.startDeferral fam := by cases hstep; rfl
+    subst e
+    obtain ⟨h1, h2, h3, h4⟩ := hgen (by simp [Table.startDeferral]) (by simp [Table.startDeferral])
+      (fun i f => by unfold Table.startDeferral; rw [setDeferring_dests'])
     exact ⟨h1, h2, h3, h4⟩
   | endDeferral fam =>
-    cases hstep
-    obtain ⟨h1, h2, h3, h4⟩ := hid (fun f => setDeferring_dests t fam false f)
-      (by simp) (by simp)
+    have e : t' = (t.endDeferral fam).1 := by cases hstep; rfl
+    subst e
+    obtain ⟨h1, h2, h3, h4⟩ := hgen (by simp [Table.endDeferral]) (by simp [Table.endDeferral])
+      (fun i f => by unfold Table.endDeferral; rw [setDeferring_dests'])
     exact ⟨h1, h2, h3, h4⟩
 
 end
